@@ -115,8 +115,13 @@ def grammar(tape, c, code_ops, other, dilate, pairable=True):
         else:
             out.insert(tape.choose(len(out) + 1, "xpos"), op)
     if dilate and c.api == "deferred":
-        out.insert(tape.choose(len(out) + 1, "dpos"),
-                   ("dilate", {"no_listen": not DILATE_LISTEN[0]}))
+        dpos = tape.choose(len(out) + 1, "dpos")
+        out.insert(dpos, ("dilate", {"no_listen": not DILATE_LISTEN[0]}))
+        if tape.choose(2, "d_after_verifier") == 0:
+            # the common idiom: `await w.get_verifier(); w.dilate()` - dilate
+            # the moment the first peer message has decrypted
+            out.insert(dpos, ("wait_event_or_steps", "verifier",
+                              300 + tape.choose(300, "dvw")))
     # close somewhere: mostly late
     style = tape.choose(4, "cstyle")
     if style == 0 and pairable:
